@@ -14,7 +14,6 @@ PID = "C18"
 PROPS = [("theories/BatchRPC/Props.v", "BatchRPC.Props")]
 AREAS = ["theories/BatchRPC"]
 ROOTS = ("ov_batchrpc",)
-STALE_CLASS = "stale-epoch-recreate-skips-fail-pending"
 
 THEOREM_OF = {
     "ids_fresh": "C18_ids_fresh", "own_response": "C18_own_response / C18_dispatch_by_id",
@@ -74,13 +73,9 @@ def main(tier, replay):
             proof_broken = True
             gate["problems"].append("coqchk: " + outc[-300:])
     env = vlib.goenv(); env["VERIF_SEED"] = str(vlib.SEED); env["VERIF_TIER"] = tier
-    # class "staleasync" (no-deadline call pending on a stream re-created by a loop that lost the epoch CAS never
-    # completes, on the code as it is) is explored only once it is listed as a known finding
-    if any(k.get("fingerprint", {}).get("finding_class", "").startswith(STALE_CLASS) for k in vlib.known_findings(PID)):
-        env.setdefault("VERIF_C18_STALEASYNC", "1")
     okm, modelrun = vlib.build_model("BatchRPC")
     okg, exe = vlib.go_build("batchrpc", roots=ROOTS)
-    stats, samples, oracle_fails, rejects, accepted, findings = {}, [], [], [], 0, set()
+    stats, samples, oracle_fails, rejects, accepted = {}, [], [], [], 0
     if okg and okm:
         spec = None
         if replay:
@@ -106,8 +101,6 @@ def main(tier, replay):
                     rejects.append(f[1:])
                 elif f[0] == "ACCEPT":
                     accepted += 1
-                elif f[0] == "FINDING" and len(f) >= 4:
-                    findings.add((f[1], f[2], f[3]))
             ids = sorted(scs, key=lambda x: int(x))
             for i in ids[:: max(1, len(ids) // 4)][:4]:
                 samples.append({"scenario": json.loads(scs[i]["spec"]), "first_events": scs[i]["events"][:12], "events": len(scs[i]["events"])})
@@ -118,12 +111,7 @@ def main(tier, replay):
                     continue
                 seen.add((sc, name))
                 o = scs.get(sc, {"spec": "{}", "events": []})
-                fc = {}
-                m = re.match(r"caller (\d+) did not return", detail)
-                if name == "exactly_once" and m and (sc, STALE_CLASS, m.group(1)) in findings:
-                    # the faithful model keeps this entry in flight too: stream re-created by a loop that lost the epoch CAS
-                    fc = {"finding_class": STALE_CLASS + "/no-deadline-call-never-returns"}
-                v.violation({**fc, "kind": "property-oracle", "oracle": name, "theorem": THEOREM_OF.get(name, name), "what": detail,
+                v.violation({"kind": "property-oracle", "oracle": name, "theorem": THEOREM_OF.get(name, name), "what": detail,
                              "scenario": json.loads(o["spec"]), "trace": o["events"][:4000],
                              "violated": "monitor predicate %s evaluated on the implementation's observed calls" % name},
                             has_input=(name != "harness"))
@@ -145,7 +133,7 @@ def main(tier, replay):
     classes = {k[6:]: n for k, n in stats.items() if k.startswith("class:")}
     cov.update(evaluations=stats.get("calls", 0) + stats.get("scenarios", 0),
                distinct_nontrivial=stats.get("distinct", 0),
-               rule="seeded scenarios of 9 classes (plain / forward / streamfail / cancel / close / staleepoch / multiconn / rebreak / sendpanic): 1..72 concurrent callers, "
+               rule="seeded scenarios of 10 classes (plain / forward / streamfail / cancel / close / staleepoch / multiconn / rebreak / sendpanic / staleasync): 1..72 concurrent callers, "
                     "4 request types, priorities 0..16, 1..5 forwarded hosts, 1..4 connections, concurrency limit, batch policies, server side delay / reorder / "
                     "duplicate / unknown-id / never-answered responses, stream kills, server restarts, injected Send/Recv/stream-creation failures, cancellation, "
                     "time-outs, client / address close during traffic, sync calls with 30 s time-outs and SendRequestAsync calls without deadline (must complete in the drain phase), "
@@ -156,7 +144,6 @@ def main(tier, replay):
                returns={k[4:]: n for k, n in stats.items() if k.startswith("ret:")},
                model_step_histogram={k[5:]: n for k, n in stats.items() if k.startswith("step:")},
                outdated_responses=stats.get("outdated", 0),
-               observations_outside_property={"stale_epoch_recreate_keeps_pending": stats.get("obs:stale_epoch_recreate_keeps_pending", 0)},
                oracle_failures=len(oracle_fails), trace_rejections=len(rejects),
                partial="proof covers the in-flight table logic; gRPC, goroutine scheduling and timers are explored on the implementation only")
     rc = v.finish()
